@@ -31,6 +31,9 @@ using vh::u64;
 
 // ------------------------------------------------------------------ virtual time + parking
 static std::atomic<long long> g_clock{1700000000000000000LL};
+static std::atomic<long long> g_clock0{1700000000000000000LL};
+static std::atomic<long long> g_mono_base{0};
+static std::atomic<bool> g_mono_on{false};
 
 struct Worker;
 static thread_local Worker* tl_worker = nullptr;
@@ -60,6 +63,14 @@ extern "C" int clock_gettime(clockid_t id, struct timespec* ts) noexcept
 {
   using fn = int (*)(clockid_t, struct timespec*);
   static fn real = reinterpret_cast<fn>(dlsym(RTLD_NEXT, "clock_gettime"));
+  if (id == CLOCK_MONOTONIC && g_mono_on.load())
+  {
+    // the steady clock advances with the virtual clock; every case starts far after the previous one
+    long long m = g_mono_base.load() + (g_clock.load() - g_clock0.load());
+    ts->tv_sec = m / 1000000000LL;
+    ts->tv_nsec = m % 1000000000LL;
+    return 0;
+  }
   if (id != CLOCK_REALTIME) return real(id, ts);
   long long now = g_clock.load();
   ts->tv_sec = now / 1000000000LL;
@@ -475,15 +486,19 @@ static void run_case(std::vector<u64> const& l)
   i += 3; // batch, on_batch, on_drain: facts of the source, not inputs of the implementation
   u64 tinit = l[i++], soft = l[i++], hard = l[i++], grace = l[i++];
   i += 7; // bits, refresh2, catchall, report_first, bt_reset, bt_guard, bt_catch: facts of the source
+  u64 fiv = l[i++]; // sink_min_flush_interval in clock ticks (ns), a multiple of one millisecond
   u64 clock0 = l[i++];
   g_clock.store(static_cast<long long>(clock0));
+  g_clock0.store(static_cast<long long>(clock0));
+  g_mono_base.store(static_cast<long long>(g_case) * 1000000000000000LL);
+  g_mono_on.store(true);
 
   quill::BackendOptions bo;
   bo.transit_event_buffer_initial_capacity = static_cast<uint32_t>(tinit);
   bo.transit_events_soft_limit = soft;
   bo.transit_events_hard_limit = hard;
   bo.log_timestamp_ordering_grace_period = std::chrono::microseconds{0};
-  bo.sink_min_flush_interval = std::chrono::milliseconds{0};
+  bo.sink_min_flush_interval = std::chrono::milliseconds{static_cast<long long>(fiv / 1000000)};
   bo.error_notifier = notifier;
   bo.check_printable_char = {};
   // the grace period option is in microseconds; the model's unit is the nanosecond tick of the virtual
